@@ -181,6 +181,12 @@ def gen_cases(ctx: Ctx) -> List[Dict[str, Any]]:
         sc2 = dict(sc, steps=10, cad=dict(sc["cad"], ckpt=2))
         cases.append({"sc": sc2, "crashes": [dict(step=3, upto=int(rng.integers(0, 8)), hard=bool(rng.integers(0, 2))), dict(step=int(rng.integers(6, 9)), upto=int(rng.integers(0, 8)), hard=False),
                                              dict(step=10, upto=int(rng.integers(0, 4)), hard=bool(rng.integers(0, 2)))][: int(rng.integers(2, 4))]})
+    # periodic centre-of-mass removal (stride N >= 2) with a checkpoint that is not a multiple of N: the resumed run must remove at the same ABSOLUTE steps
+    rc = [(("linear", 4), 3, "langevin"), (("angular", 3), 2, "xl"), (("linear", 3), 4, "ksa"), (("angular", 2), 3, "langevin")]
+    for i, (mode, ck, eng) in enumerate(rc if ctx.thorough else [rc[ctx.seed % 2], rc[2 + ctx.seed % 2]]):
+        sc = sc_(dict(data=1, coordinates=1, velocities=1, forces=0, xyz=0, print=0, ckpt=ck), 11, engine=eng, k=4, seed=int(rng.integers(1, 999)), mols=("h2o", "ch4") if i % 2 else ("h2o",), damp=15.0)
+        sc["remove_com"] = list(mode)
+        cases.append({"sc": sc, "crashes": [dict(step=int(rng.integers(ck + 1, 10)), upto=int(rng.integers(0, 8)), hard=bool(rng.integers(0, 2)))]})
     # excited-state surface (real CIS engine) and density reuse switched off
     ex = {"excited_states": {"n_states": 2, "method": "cis"}, "active_state": 1}
     xcases = [("basic", ex, True), ("xl", ex, True), ("basic", {}, False), ("langevin", ex, False)]
